@@ -175,7 +175,11 @@ func (s *Stack) resolveStep(cur any, p string) any {
 	case map[string]any:
 		return c[p]
 	case map[string]string:
-		return c[p]
+		// a missing key is absent, not the empty string
+		if v, ok := c[p]; ok {
+			return v
+		}
+		return nil
 	}
 
 	// Try numeric index for slices and arrays
